@@ -132,6 +132,7 @@ Lemma encoder_encode_inv e b e' :
     (match si_total (e_si e) with Some t => e_samples_written e' <= t | None => True end).
 Proof.
   intros I H Hb Hfit. pose proof Hfit as [Fs Fb]. unfold encoder_encode in H.
+  destruct (si_max_bs (e_si e) <? block_len b); [discriminate|].
   apply bind_ok in H. destruct H as (wr & Hw & H).
   destruct (match si_total (e_si e) with Some t => (t <? wr) | None => false end) eqn:Ht; [discriminate|].
   destruct (8 <? N.of_nat (length b)); [discriminate|].
@@ -182,6 +183,7 @@ Lemma encoder_encode_grows e b e' : length (e_emitted_rev e) = length (e_frames_
   length (e_emitted_rev e') = length (e_frames_rev e').
 Proof.
   intros L H. unfold encoder_encode in H.
+  destruct (si_max_bs (e_si e) <? block_len b); [discriminate|].
   apply bind_ok in H. destruct H as (wr & Hw & H).
   destruct (match si_total (e_si e) with Some t => (t <? wr) | None => false end); [discriminate|].
   destruct (8 <? N.of_nat (length b)); [discriminate|].
